@@ -1010,6 +1010,26 @@ func indexInRange(T *Terms, b *ssa.BasicBlock, x, idx ssa.Value) (bool, string) 
 		}
 		return false, fmt.Sprintf("constant index %d without a dominating fact that the length exceeds it: this panics for a short value (facts: %v)", k, factStrings(fs))
 	}
+	// array with a known length: the index interval must lie within it
+	at := x.Type().Underlying()
+	if pt, ok := at.(*types.Pointer); ok {
+		at = pt.Elem().Underlying()
+	}
+	if arr, ok := at.(*types.Array); ok {
+		lo, hi := intervalOf(fs, T.T(idx))
+		if l0, ok := inductionLowerBound(idx); ok {
+			lo = max(lo, l0)
+		}
+		if censusRange != nil {
+			if l2, h2, ok := censusRange(idx); ok {
+				lo, hi = max(lo, l2), min(hi, h2)
+			}
+		}
+		if lo >= 0 && hi < int(arr.Len()) {
+			return true, fmt.Sprintf("index within [%d,%d], array length %d", lo, hi, arr.Len())
+		}
+		return false, fmt.Sprintf("index is only known to lie in [%s,%s] but the array has %d elements: an out-of-range value panics", bnd(lo), bnd(hi), arr.Len())
+	}
 	// variable index: idx < len(x) known
 	it := strip(T.T(idx))
 	for _, f := range fs {
@@ -1026,4 +1046,50 @@ func indexInRange(T *Terms, b *ssa.BasicBlock, x, idx ssa.Value) (bool, string) 
 		}
 	}
 	return false, "variable index without a dominating bound (facts: " + strings.Join(factStrings(fs), "; ") + ")"
+}
+
+func bnd(x int) string {
+	if x <= -inf {
+		return "-inf"
+	}
+	if x >= inf {
+		return "+inf"
+	}
+	return fmt.Sprint(x)
+}
+
+// inductionLowerBound: v is a constant, or a loop counter phi{c0, v+k} with k > 0 (possibly converted): its lower
+// bound is the smallest initial constant.
+func inductionLowerBound(v ssa.Value) (int, bool) {
+	switch x := v.(type) {
+	case *ssa.Const:
+		if x.Value != nil {
+			return int(x.Int64()), true
+		}
+	case *ssa.Convert:
+		return inductionLowerBound(x.X)
+	case *ssa.Phi:
+		lo, any := inf, false
+		for _, e := range x.Edges {
+			if bo, ok := e.(*ssa.BinOp); ok && bo.Op == token.ADD {
+				if k, ok := bo.Y.(*ssa.Const); ok && k.Int64() > 0 && (bo.X == ssa.Value(x) || convOf(bo.X) == ssa.Value(x)) {
+					continue
+				}
+			}
+			l, ok := inductionLowerBound(e)
+			if !ok {
+				return 0, false
+			}
+			lo, any = min(lo, l), true
+		}
+		return lo, any
+	}
+	return 0, false
+}
+
+func convOf(v ssa.Value) ssa.Value {
+	if c, ok := v.(*ssa.Convert); ok {
+		return c.X
+	}
+	return v
 }
